@@ -48,7 +48,9 @@ def cases(tier, seed):
     out = []
     for tr in ("bundled", "custom"):
         for i in range(0, len(oc), PACK):
-            out.append({"ops": oc[i:i + PACK], "transport": tr})
+            out.append({"ops": oc[i:i + PACK], "transport": tr, "refs": False})
+    for i in range(0, len(oc), PACK):
+        out.append({"ops": oc[i:i + PACK], "transport": "custom", "refs": True})
     return out
 
 
@@ -62,7 +64,8 @@ def make_calls(case):
 def run_case(case):
     cs = case["ops"]
     tr = case["transport"]
-    res = driven.drive_pack(cs, make_calls, tr)
+    refs = bool(case.get("refs"))
+    res = driven.drive_pack(cs, make_calls, tr, refs=refs)
     found = []
     seen = set()
     nontriv = []
@@ -74,7 +77,7 @@ def run_case(case):
 
         def add(clause, disc, detail, status=None):
             sig = f"C06|{clause}|{disc}"
-            key = f"{tr}|{dlabel}|{status}"
+            key = f"{tr}|{dlabel}|{status}" + ("|via-component-refs" if refs else "")
             if (sig, key) not in seen:
                 seen.add((sig, key))
                 found.append({"sig": sig, "key": key, "msg": f"{detail} [declared {dlabel}; transport {tr}]"})
@@ -93,7 +96,7 @@ def run_case(case):
         for rec in r["records"]:
             s = STATUSES[rec["id"][1]]
             ncalls += 1
-            nontriv.append(f"{tr}|{dlabel}|{s}")
+            nontriv.append(f"{tr}|{dlabel}|{s}|{refs}")
             cls = f"{s // 100}xx"
             if str(s) in declared:
                 how = "declared"
